@@ -21,6 +21,7 @@ impl<const N: usize> Lru<N> {
         &&& o[0] == self.head
         &&& forall|k: int| 0 <= k < N ==> (#[trigger] o[k] as int) < N
         &&& forall|j: int, k: int| 0 <= j < k < N ==> o[j] != o[k]
+        &&& forall|v: u8| (v as int) < N ==> #[trigger] o.contains(v)
         &&& forall|k: int| 0 <= k < N - 1 ==> self.data[#[trigger] o[k] as int].next == o[k + 1]
         &&& self.data[o[N - 1] as int].next == o[0]
         &&& forall|k: int| 1 <= k < N ==> self.data[#[trigger] o[k] as int].prev == o[k - 1]
@@ -54,6 +55,36 @@ impl<const N: usize> Lru<N> {
 }
 
 impl<const N: usize> Lru<N> {
+    fn new() -> (out: Self)
+        requires 1 <= N <= 255
+        ensures out.wf(), out.order() == Seq::new(N as nat, |k: int| k as u8)
+    {
+        let mut out = Self {
+            data: [LruNode::default(); N],
+            head: 0,
+        };
+        for i in 0..N
+            invariant out.head == 0, 1 <= N <= 255,
+                forall|k: int| 0 <= k < i ==> (#[trigger] out.data[k]).next == ((k + 1) % (N as int)) as u8
+                    && out.data[k].prev == (if k == 0 { N as int - 1 } else { k - 1 }) as u8,
+        {
+            out.data[i].next = ((i + 1) % N) as u8;
+            out.data[i].prev = (i.checked_sub(1).unwrap_or(N - 1)) as u8;
+        }
+        proof {
+            let o = Seq::new(N as nat, |k: int| k as u8);
+            assert forall|v: u8| (v as int) < N implies #[trigger] o.contains(v) by { assert(o[v as int] == v); }
+            assert forall|k: int| 0 <= k < N - 1 implies out.data[#[trigger] o[k] as int].next == o[k + 1] by {
+                vstd::arithmetic::div_mod::lemma_small_mod((k + 1) as nat, N as nat);
+            }
+            assert(out.data[o[N as int - 1] as int].next == o[0]) by {
+                vstd::arithmetic::div_mod::lemma_mod_self_0(N as int);
+            }
+            assert(out.wf_with(o));
+            out.lemma_order(o);
+        }
+        out
+    }
     fn pop(&mut self) -> (out: u8)
         requires old(self).wf(),
         ensures
@@ -67,6 +98,11 @@ impl<const N: usize> Lru<N> {
         proof {
             let n = N as int;
             let no = seq![out] + o.subrange(0, n - 1);
+            assert forall|v: u8| (v as int) < N implies #[trigger] no.contains(v) by {
+                assert(o.contains(v));
+                let k = choose|k: int| 0 <= k < o.len() && o[k] == v;
+                if k == n - 1 { assert(no[0] == v); } else { assert(no[k + 1] == v); }
+            }
             assert(self.wf_with(no));
             self.lemma_order(no);
         }
@@ -158,14 +194,23 @@ impl<const N: usize> Lru<N> {
             self.head = i; // rotate the head back by one
             proof { Self::lemma_poke_fin(*old(self), *self, o, i, idx); }
         } else {
-            proof { assert(idx == N - 1); }
+            proof { assert(idx == N - 1); assert(N >= 2); }
             self.head = i; // rotate the head back by one
-            proof {
-                let no = poke_order(o, i);
-                assert(self.wf_with(no));
-                self.lemma_order(no);
-            }
+            proof { Self::lemma_poke_last(*old(self), *self, o, i); }
         }
+    }
+
+    proof fn lemma_poke_last(s0: Self, s1: Self, o: Seq<u8>, i: u8)
+        requires s0.wf_with(o), o[N as int - 1] == i, s1.head == i, s1.data@ == s0.data@, N >= 2,
+        ensures s1.wf(), s1.order() == poke_order(o, i)
+    {
+        let no = poke_order(o, i);
+        assert(o.contains(i)) by { assert(o[N as int - 1] == i); }
+        assert(o.index_of(i) == N as int - 1);
+        lemma_poke_order_contains(o, i);
+        assert forall|k: int| 1 <= k < N implies #[trigger] no[k] == o[k - 1] by {}
+        assert(s1.wf_with(no));
+        s1.lemma_order(no);
     }
 
     proof fn lemma_poke_mid(s0: Self, s1: Self, o: Seq<u8>, i: u8, idx: int)
@@ -234,11 +279,26 @@ impl<const N: usize> Lru<N> {
     {
         let no = poke_order(o, i);
         assert(o.index_of(i) == idx);
+        assert(o.contains(i));
+        lemma_poke_order_contains(o, i);
         assert(s1.wf_with(no));
         s1.lemma_order(no);
     }
 }
 
+proof fn lemma_poke_order_contains(o: Seq<u8>, i: u8)
+    requires o.contains(i)
+    ensures forall|v: u8| o.contains(v) ==> #[trigger] poke_order(o, i).contains(v)
+{
+    let idx = o.index_of(i);
+    let no = poke_order(o, i);
+    assert forall|v: u8| o.contains(v) implies #[trigger] no.contains(v) by {
+        let k = choose|k: int| 0 <= k < o.len() && o[k] == v;
+        if v == i { assert(no[0] == v); }
+        else if k < idx { assert(no[k + 1] == v); }
+        else { assert(k != idx); assert(no[k] == v); }
+    }
+}
 spec fn poke_order(o: Seq<u8>, i: u8) -> Seq<u8> {
     let idx = o.index_of(i);
     Seq::new(o.len(), |k: int| if k == 0 { i } else if k - 1 < idx { o[k - 1] } else { o[k] })
@@ -247,18 +307,8 @@ spec fn poke_order(o: Seq<u8>, i: u8) -> Seq<u8> {
 proof fn lemma_perm_contains<const N: usize>(s: Lru<N>, o: Seq<u8>, i: u8)
     requires s.wf_with(o), (i as int) < N
     ensures o.contains(i)
-{
-    lemma_injective_onto(o, N as int, i as int);
-}
+{}
 
-proof fn lemma_injective_onto(o: Seq<u8>, n: int, v: int)
-    requires o.len() == n, 0 <= v < n,
-        forall|k: int| 0 <= k < n ==> (#[trigger] o[k] as int) < n,
-        forall|j: int, k: int| 0 <= j < k < n ==> o[j] != o[k],
-    ensures o.contains(v as u8)
-{
-    admit(); // TODO pigeonhole
-}
 
 } // verus!
 fn main() {}
